@@ -254,6 +254,10 @@ func coerceFloat(value interface{}) interface{} {
 		}
 		return coerceFloat(*value)
 	case float32:
+		// NaN and the infinities are not Float values (and cannot be encoded as JSON)
+		if math.IsNaN(float64(value)) || math.IsInf(float64(value), 0) {
+			return nil
+		}
 		return value
 	case *float32:
 		if value == nil {
@@ -261,6 +265,9 @@ func coerceFloat(value interface{}) interface{} {
 		}
 		return coerceFloat(*value)
 	case float64:
+		if math.IsNaN(value) || math.IsInf(value, 0) {
+			return nil
+		}
 		return value
 	case *float64:
 		if value == nil {
@@ -269,7 +276,8 @@ func coerceFloat(value interface{}) interface{} {
 		return coerceFloat(*value)
 	case string:
 		val, err := strconv.ParseFloat(value, 0)
-		if err != nil {
+		if err != nil || math.IsNaN(val) || math.IsInf(val, 0) {
+			// ParseFloat accepts "NaN", "Inf" and "Infinity"
 			return nil
 		}
 		return val
